@@ -54,3 +54,10 @@ GROUPS += [
           must_fail=["reach_end", "reach_creation_failed"], functions=["QScreate_prob", "QSfree_prob", "ILLlpdata_init", "ILLlpdata_free"],
           props=["C18", "C17"], assumed=["life/create_free: ILLsimplex_init/free/load_lpinfo and ILLprice_init/free_pricing_info are stubs that own nothing; GMP model variant TOKENS"]),
 ]
+
+GROUPS += [
+    Group("life/grab_basis", "qs_grab_basis.c", tus=["qsopt_mpq.c", "lpdata_mpq.c", "allocrus.c", "eg_lpnum.c"], model=MODEL, defines=TOK, dfcc=False, export_static=True, unwind=5, kind="bounded", leak=True, timeout=900,
+          bound="problem of 1 column and 2 rows; stored basis absent, of the same shape or of the transposed shape, with / without row and column norms; loops completely unwound",
+          flags=["--no-malloc-may-fail"], must_fail=["reach_end", "reach_reshaped_with_old_norms"], functions=["grab_basis", "ILLlp_basis_free", "ILLlp_basis_init"],
+          props=["C17", "C18", "C12"], assumed=["life/grab_basis: static grab_basis called through goto-cc --export-file-local-symbols; ILLlib_getbasis (decided in lib/getbasis) and ILLlib_getrownorms are arbitrary-result stubs; GMP model variant TOKENS"]),
+]
